@@ -184,6 +184,8 @@ def call_builtin(I, name, args, kwargs, env):
         return [(i + start, v) for i, v in enumerate(I.iterate(x))]
     if name == 'reversed':
         x = args[0]
+        if isinstance(x, XList) and x.base is not None and not x.items:
+            x = x.base
         if isinstance(x, SSeq):
             return I.loops.seq_reversed(I, x)
         return list(reversed(I.iterate(x)))
